@@ -271,8 +271,12 @@ def normalise(tree, relpath):
     ref = table().get(relpath)
     if not ref:
         return done
+    from sa import inline
+    known_functions = set(ref.get('__functions__', []))
+    if known_functions:
+        done.extend('%s: %s' % (relpath, x) for x in inline.inline_helpers(tree, known_functions))
     for key, fn in functions(tree):
-        if key not in ref:
+        if key not in ref or key == '__functions__':
             continue
         ren = plan(fn, [tuple(x) for x in ref[key].get('locals', [])])
         if ren:
@@ -280,6 +284,8 @@ def normalise(tree, relpath):
                 if isinstance(n, ast.Name) and n.id in ren:
                     n.id = ren[n.id]
             done.extend('%s:%s %s->%s' % (relpath, key, c, r) for c, r in sorted(ren.items()))
+        known = set(x[0] for x in ref[key].get('locals', []))
+        done.extend('%s:%s %s' % (relpath, key, x) for x in inline.inline_named_conditions(fn, known))
         # comparisons written the other way round than on the reference tree are turned back
         refcmp = set(ref[key].get('cmp', []))
         if refcmp:
@@ -291,7 +297,6 @@ def normalise(tree, relpath):
                         if ft in refcmp:
                             n.left, n.ops, n.comparators = n.comparators[0], [_FLIP[type(n.ops[0])]()], [n.left]
                             done.append('%s:%s `%s` read as `%s`' % (relpath, key, t, ft))
-        known = set(x[0] for x in ref[key].get('locals', []))
         done.extend('%s:%s %s' % (relpath, key, x) for x in _inline_explaining(fn, known))
         # early-exit `if` vs if/else, as on the reference tree
         want = ref[key].get('jif', {})
@@ -479,6 +484,7 @@ def generate(repo):
                 jif = dict((k, style) for k, n_, style, b_, i_ in _jump_ifs(fn))
                 if fps or cmps or jif:
                     ent[key] = {'locals': fps, 'cmp': cmps, 'jif': jif}
+            ent['__functions__'] = sorted(k for k, fn in functions(tree))
             if ent:
                 out[rel] = ent
     return out
@@ -492,4 +498,4 @@ if __name__ == '__main__':
         with open(TABLE, 'w') as fh:
             json.dump(t, fh, indent=0, sort_keys=True)
         print('reference table: %d modules, %d functions, %d locals' % (
-            len(t), sum(len(v) for v in t.values()), sum(len(x['locals']) for v in t.values() for x in v.values())))
+            len(t), sum(len(v['__functions__']) for v in t.values()), sum(len(x['locals']) for v in t.values() for k, x in v.items() if k != '__functions__')))
